@@ -614,6 +614,12 @@ class _W:
         if isinstance(kw.get("ident"), dict):
             kw["ident"] = kw["ident"]["b"].encode("ascii")
         r = _call(parent.H.using, **kw)
+        if op["relaxed"] and r[0] == "exc":
+            # relaxed=True: a value below a hard minimum is clamped (with a warning), never refused as "too low" -- number or numeral
+            for k_ in ("block_size", "parallelism"):
+                v_ = op["settings"].get(k_)
+                if v_ is not None and int(v_) < 1 and "too low" in str(r[2]):
+                    ctx.fail("C09", "relaxed-setting-refused", f"{parent.base}.using({kw}) raised {r[1]}: {r[2]}", hasher=parent.base, setting=k_)
         after = self.snapshots(skip=())
         # (4) neither the parent nor anybody else changed -- whether the call succeeded or not
         self.compare(before, after, f"using({kw}) on node {op['parent']}")
